@@ -224,6 +224,10 @@ def gen_job(seed, profile="general"):
         lst.append({"name": "move", "fx": "max", "skip": [False] + [True] * (1 if dim == 2 else 2) if r.random() < 0.5 else [False] * dim, "value": 0.0, "ramped": True})
         if r.random() < 0.3:
             lst.append({"name": "overlap", "fx": "max", "fy": "max", "mode": "and", "skip": [True, False] + ([True] if dim == 3 else []), "value": 0.0})
+        elif r.random() < 0.3:
+            # an edge of the moved face is listed again with the same (ramped) value: the same
+            # unknowns are selected by two boundaries
+            lst.append({"name": "guide", "fx": "max", "fy": "max", "mode": "and", "skip": list(lst[1]["skip"]), "value": 0.0, "ramped": True})
         bc["list"] = lst
     if fkind == "Mixed3" and r.random() < 0.5:
         # a boundary on a dual field (pressure or volume ratio of one cell) with a non-zero value
@@ -248,6 +252,8 @@ def gen_job(seed, profile="general"):
             ramp.append({"target": "bc:move2", "values": [round(v * 0.5, 6) for v in vals]})
         else:
             ramp.append({"target": "bc:move", "values": vals})
+            if any(b_.get("name") == "guide" for b_ in bc.get("list", [])):
+                ramp.append({"target": "bc:guide", "values": list(vals)})
         for k, it in enumerate(items):
             if "_top" in it:
                 tv = it["_top"]
